@@ -166,7 +166,7 @@ def nametable_rule(ctx, rule: str):
     model = ctx.model
     cons = consumers(model)
     if len(cons) < 2:
-        raise AnalysisError(f"only {len(cons)} consumer(s) of {SOURCE} found (expected the deserialization and the JSON-schema object() hooks)")
+        ctx.undecided(rule, f"only {len(cons)} consumer(s) of {SOURCE} found (expected the deserialization and the JSON-schema object() hooks): names may reach a table through a helper this rule does not follow")
     for fi in cons:
         fl = Flow(fi.node)
         tnames = set(fl.tables)
